@@ -131,6 +131,43 @@ class LetIn(Expr):
         return LetIn(m.get(self.var, self.var), self.init.ren(m), self.body.ren(m))
 
 
+class PlainAdd(Expr):
+    """`a + k` printed WITHOUT parentheses around it: as an `expr` argument of an in-program macro it must still be substituted as one
+    expression (`$x * 2` with `$x := a + 1` means `(a + 1) * 2`, as with Rust's own `$x:expr`)"""
+
+    def __init__(self, a, b):
+        self.a, self.b = a, b
+
+    def rs(self, sc=None):
+        return '%s + %s' % (self.a.rs(sc), self.b.rs(sc))
+
+    def ev(self, env):
+        return self.a.ev(env) + self.b.ev(env)
+
+    def vars(self):
+        return self.a.vars() | self.b.vars()
+
+    def ren(self, m):
+        return PlainAdd(self.a.ren(m), self.b.ren(m))
+
+
+class Paren(Expr):
+    def __init__(self, e):
+        self.e = e
+
+    def rs(self, sc=None):
+        return '(%s)' % self.e.rs(sc)
+
+    def ev(self, env):
+        return self.e.ev(env)
+
+    def vars(self):
+        return self.e.vars()
+
+    def ren(self, m):
+        return Paren(self.e.ren(m))
+
+
 class ClosureApp(Expr):
     """an immediately applied closure whose parameter shadows nothing or a rule variable: `(|v: i32| <body>)(<arg>)`"""
 
